@@ -315,6 +315,10 @@ def c06(chk):
     info, summ = vf.run_model(f"lex_raw{sl - 1}", "MC_Lex.tla", {"Family": "raw", "MaxLen": sl - 1}, chk.outdir,
                               workers=12 if chk.tier == "quick" else 16, timeout=3000)
     chk.add_model(info, summ, {"literal", "panic"}, ["wf", "lexerr"], note=f"MC_Lex.tla raw source texts up to length {sl - 1}")
+    traces(chk, "literals", "trace_literals", quick=(4, 2500), thorough=(16, 15000),
+           note="random integers in [0, 2^63) in decimal / hex, random finite doubles in nine renderings (shortest, e, E, e+, E+, "
+                "leading / trailing dot, fixed, Display), random Unicode strings quoted; alone and glued (lit-lit, a-lit, (lit,lit), "
+                "x=lit;x); the recorded tree and value must be the specification's")
 
 
 def c07(chk):
